@@ -564,6 +564,30 @@ def check_seq_case(n, graph, order, forms, selfmask, seed, res, dup=None):
             res.count("observed_second_call_reorders_again")
     except Exception as e:      # noqa: BLE001
         res.violation("second_call", dict(sig, error=type(e).__name__), case, "%s: %s" % (type(e).__name__, e))
+    # the object has now been inspected and put in order; move its equations by hand (reversed, then rotated by one)
+    # and ask again: is_sequential must describe the order the equations are in NOW, sequentialize must repair it
+    if n >= 2:
+        for label, perm in (("reversed", list(range(n - 1, -1, -1))), ("rotated", list(range(1, n)) + [0])):
+            try:
+                m.reorder_equations(perm)
+                moved = _snapshot(m)
+                order3 = [parse_equation(s_)[0] for s_ in moved["equation_strings"]]
+                res.count("hand_reorders_checked")
+                if sorted(moved["equation_strings"]) != sorted(old):
+                    res.violation("hand_reorder", dict(sig, step=label), case, "reorder_equations(%r) changed the set of equations: %r" % (perm, moved["equation_strings"]))
+                    break
+                if moved["is_sequential"] != (not B.order_violations(deps, order3)):
+                    res.violation("hand_reorder", dict(sig, step=label, what="is_sequential"), case,
+                                  "after reorder_equations(%r) is_sequential=%r for the order %r" % (perm, moved["is_sequential"], moved["equation_strings"]))
+                ret3 = m.sequentialize()
+                fixed = _snapshot(m)
+                order4 = [parse_equation(s_)[0] for s_ in fixed["equation_strings"]]
+                if (sorted(fixed["equation_strings"]) != sorted(old) or B.order_violations(deps, order4) or not fixed["is_sequential"]):
+                    res.violation("hand_reorder", dict(sig, step=label, what="sequentialize"), case,
+                                  "after reorder_equations(%r) sequentialize returned %r and left %r" % (perm, ret3, fixed["equation_strings"]))
+            except Exception as e:      # noqa: BLE001
+                res.violation("hand_reorder", dict(sig, step=label, error=type(e).__name__), case, "%s: %s" % (type(e).__name__, e))
+                break
     res.nt(("seq", n, graph, tuple(order), tuple(forms), selfmask))
     res.count("acyclic_already_sequential" if already else "acyclic_reordered")
     res.cls("seq_outcome", ("acyclic", n, tuple(ret_t)))
@@ -829,6 +853,7 @@ def run(ctx, total, info):
         "matrices_with_perfect_matching": (c["matrices_with_perfect_matching"], 30000 if ctx.quick else 700000),
         "blaze_block_size_structures": (len(total.classes.get("block_sizes", ())), 12 if ctx.quick else 20),
         "blaze_n5_matrices": (c["n5_matrices"], 500),
+        "seq_hand_reorders_checked": (c["hand_reorders_checked"], 8000),
         "blaze_cases_with_a_simultaneous_block": (c["cases_with_a_simultaneous_block"], 30000),
         "seq_acyclic_reordered": (c["acyclic_reordered"], 4000 if ctx.quick else 8000),
         "seq_acyclic_already_sequential": (c["acyclic_already_sequential"], 1500),
